@@ -138,17 +138,23 @@ def cases(tier, seed):  # noqa: ARG001
     # silicon revisions whose TrustZone register set is not the one of the latest revision: everything that depends on
     # the revision (preset size, register names) must follow the revision of the configuration / of the parse call
     for fam, rev in G.tz_revisions():
-        for info in G.images(fam):
+        for info in G.images(fam, rev):
             for k in range(2 if tier == "quick" else 24):
                 yield {"kind": "gen", "family": fam, "target": info["target"], "auth": info["auth"], "k": k, "rev": rev,
                        "want": {"revision": rev, "tz": "custom" if k % 2 == 0 else None}}
+    # ... and the revisions whose image classes themselves differ from the latest revision
+    for fam, rev in G.mbi_revisions():
+        for info in G.images(fam, rev):
+            for k in range(6 if tier == "quick" else 60):
+                yield {"kind": "gen", "family": fam, "target": info["target"], "auth": info["auth"], "k": k, "rev": rev,
+                       "want": {"revision": rev}}
 
 
-def _info(family, target, auth):
-    for i in G.images(family):
+def _info(family, target, auth, revision="latest"):
+    for i in G.images(family, revision):
         if i["target"] == target and i["auth"] == auth:
             return i
-    raise core.Inconclusive(f"{family}: no image ({target}, {auth}) in the database under test")
+    raise core.Inconclusive(f"{family}/{revision}: no image ({target}, {auth}) in the database under test")
 
 
 def extra_coverage(events, counters):  # noqa: ARG001
@@ -297,12 +303,12 @@ def ambiguity(b):
     """None | 'type-shared' | 'type-not-in-image' - can parse() identify this class from the bytes at all?"""
     info = b.info
     if not any(x.startswith("Mbi_MixinIvt") for x in info["mixins"]):
-        fixed = G.fixed_image_type(b.family)
-        first = next((i for i in G.images(b.family) if i["image_type"] == fixed), None) if fixed >= 0 else None
+        fixed = G.fixed_image_type(b.family, b.revision)
+        first = next((i for i in G.images(b.family, b.revision) if i["image_type"] == fixed), None) if fixed >= 0 else None
         if first is None or first["cls"] != info["cls"]:
             return "type-not-in-image"
         return None
-    first = next(i for i in G.images(b.family) if i["image_type"] == info["image_type"])
+    first = next(i for i in G.images(b.family, b.revision) if i["image_type"] == info["image_type"])
     if first["cls"] != info["cls"]:
         # the recorded finding is exactly: plain XIP and plain RAM share type 0, signed XIP and signed RAM share type 4
         # (the format has no other way to tell them apart).  Any OTHER pair of classes that ends up with one image type -
@@ -385,7 +391,7 @@ def run_case(case, ctx):  # noqa: C901
     from spsdk.image.mbi.mbi import MasterBootImage
 
     family = case["family"]
-    info = _info(family, case["target"], case["auth"])
+    info = _info(family, case["target"], case["auth"], (case.get("want") or {}).get("revision", "latest"))
     rng = ctx.rng
     os.makedirs(ctx.workdir, exist_ok=True)
     b = G.build(family, info, rng, ctx.workdir, tier=ctx.tier, want=case.get("want"))
